@@ -5,6 +5,57 @@ package service
 func init() {
 	vrtHarnesses["VerifC04Cuts"] = VerifC04Cuts
 	vrtHarnesses["VerifC04Long"] = VerifC04Long
+	vrtHarnesses["VerifC04Three"] = VerifC04Three
+}
+
+// VerifC04Three: three escape-free frames of unequal length, every 1-cut and 2-cut of the stream:
+// the interaction of the single-frame fast path with the buffered path across three reads.
+func VerifC04Three() {
+	var frames []*vFrame
+	var stream []byte
+	var ends []int
+	for i, bl := range []int{3, 0, 1} {
+		f := vGenFrame("f", []uint16{0x0200, 0x0002, 0x0100}[i], false, bl, 0)
+		vNoSpecialChecksum(f)
+		frames = append(frames, f)
+		stream = append(stream, f.bytes()...)
+		ends = append(ends, len(stream))
+	}
+	n := len(stream)
+	c1 := 1 + vrt_Choose("cut1", n)
+	c2 := c1 + vrt_Choose("cut2", n-c1+1)
+	pieces := [][]byte{stream[:c1]}
+	offs := []int{c1}
+	if c2 > c1 {
+		pieces = append(pieces, stream[c1:c2])
+		offs = append(offs, c2)
+	}
+	if n > c2 {
+		pieces = append(pieces, stream[c2:])
+		offs = append(offs, n)
+	}
+	r := vNewReader()
+	var got []vSnap
+	for j, p := range pieces {
+		msgs, err := r.read(p)
+		vrt_Assert(err == nil, "valid stream reported as an error")
+		for _, msg := range msgs {
+			got = append(got, vSnapOf(msg))
+		}
+		want := 0
+		for _, e := range ends {
+			if e <= offs[j] {
+				want++
+			}
+		}
+		vrt_Assert(len(got) == want, "a message was delivered before its closing delimiter arrived, or withheld after it")
+	}
+	vrt_Assert(len(got) == 3, "number of messages differs from number of frames")
+	for i, f := range frames {
+		vrt_Assert(got[i].id == f.id && got[i].serial == f.serial && vrt_BytesEq(got[i].body, f.body), "message differs or order changed")
+	}
+	vrt_Assert(len(r.pack.historyData) == 0, "bytes left in the frame extractor after a complete stream")
+	vrt_Cover("first-frame-split-then-two-coalesced", c1 < ends[0] && c2 == ends[0])
 }
 
 // VerifC04Cuts: a stream of m valid frames cut into reads at every 1-cut and 2-cut position; the
